@@ -7,7 +7,7 @@ from pathlib import Path
 
 diffs = []
 for d in sys.argv[1:]:
-    diffs += sorted(Path(d).rglob("*.diff"))
+    diffs += sorted(Path(d).resolve().rglob("*.diff"))
 
 
 def one(diff):
